@@ -39,16 +39,71 @@ func (c *countReader) Read(p []byte) (int, error) {
 
 func in(b []byte) io.Reader { return &countReader{r: bytes.NewReader(b)} }
 
-// drain reads a returned body to EOF or error under the step budget.
+// The same byte string can reach a parser through readers that behave differently, all within
+// the io.Reader contract. readerModes: 0 = as much as asked for at once (bytes.Reader);
+// 1 = one octet per Read call; 2 = the last octets are returned TOGETHER with io.EOF.
+const readerModes = 3
+
+var readerModeNames = [readerModes]string{"whole reads", "one octet per Read", "final octets together with io.EOF"}
+
+type modeReader struct {
+	b     []byte
+	mode  int
+	reads int
+}
+
+func (m *modeReader) Read(p []byte) (int, error) {
+	m.reads++
+	if m.reads > readBudget {
+		panic(budgetExceeded{"input reader"})
+	}
+	if len(p) == 0 {
+		return 0, nil
+	}
+	if len(m.b) == 0 {
+		return 0, io.EOF
+	}
+	n := len(p)
+	if m.mode == 1 {
+		n = 1
+	}
+	if n > len(m.b) {
+		n = len(m.b)
+	}
+	copy(p, m.b[:n])
+	m.b = m.b[n:]
+	if m.mode == 2 && len(m.b) == 0 {
+		return n, io.EOF
+	}
+	return n, nil
+}
+
+// inMode returns the input as a reader of the given mode.
+func inMode(b []byte, mode int) io.Reader {
+	if mode == 0 {
+		return in(b)
+	}
+	return &modeReader{b: b, mode: mode}
+}
+
+// drainSizes: buffer sizes used to read returned bodies. 1, 22 and 23 lie on either side of
+// the 22-octet MDC trailer window (seMDCReader.Read takes another path for len(buf) <= 22);
+// 64 / 512 / 4096 are below / above the armor line, partial-length chunk and bufio sizes.
+var drainSizes = []int{4096, 512, 64, 1, 22, 23}
+
+// drain reads a returned body to EOF or error under the step budget; afterwards the reader is
+// asked twice more (a reader that has ended must keep answering without panicking).
 func drain(r io.Reader, bufSize int) (n int64, err error) {
 	buf := make([]byte, bufSize)
 	for steps := 0; steps < readBudget; steps++ {
 		k, e := r.Read(buf)
 		n += int64(k)
-		if e == io.EOF {
-			return n, nil
-		}
 		if e != nil {
+			r.Read(buf)
+			r.Read(buf[:1])
+			if e == io.EOF {
+				return n, nil
+			}
 			return n, e
 		}
 	}
@@ -275,9 +330,26 @@ var entryNames = []string{
 	"armor.Decode", "armor.Decode+ReadMessage", "clearsign.Decode",
 }
 
-// all hands one input to every entry point. idx varies the buffer size used to drain bodies.
+// all hands one input to every entry point; the combination of drain buffer size and reader
+// mode is assigned round-robin by idx (unmodified seeds and truncations get every reader mode,
+// see mutations()).
 func (e *env) all(input []byte, idx int, what func() string) {
-	buf := []int{4096, 512, 64}[idx%3]
+	if idx < 0 {
+		idx = -idx
+	}
+	e.allMode(input, drainSizes[idx%len(drainSizes)], (idx/len(drainSizes))%readerModes, what)
+}
+
+// allMode hands one input to every entry point, read through a reader of the given mode;
+// returned bodies are drained with a buffer of buf octets.
+func (e *env) allMode(input []byte, buf, mode int, what0 func() string) {
+	what := what0
+	if mode != 0 || buf < 64 {
+		what = func() string {
+			return fmt.Sprintf("%s [input reader: %s; bodies read %d octets at a time]", what0(), readerModeNames[mode], buf)
+		}
+	}
+	in := func(b []byte) io.Reader { return inMode(b, mode) }
 	e.call(entryNames[0], input, what, func() bool {
 		el, err := openpgp.ReadKeyRing(in(input))
 		return err == nil && len(el) > 0
@@ -295,11 +367,11 @@ func (e *env) all(input []byte, idx int, what func() string) {
 		e.release(ring, &used)
 	}
 	e.call(entryNames[6], input, what, func() bool {
-		_, err := openpgp.CheckDetachedSignature(e.pubs, bytes.NewReader(e.doc), in(input))
+		_, err := openpgp.CheckDetachedSignature(e.pubs, inMode(e.doc, mode), in(input))
 		return err == nil
 	})
 	e.call(entryNames[7], input, what, func() bool {
-		_, err := openpgp.CheckArmoredDetachedSignature(e.pubs, bytes.NewReader(e.doc), in(input))
+		_, err := openpgp.CheckArmoredDetachedSignature(e.pubs, inMode(e.doc, mode), in(input))
 		return err == nil
 	})
 	e.call(entryNames[8], input, what, func() bool {
@@ -326,7 +398,7 @@ func (e *env) all(input []byte, idx int, what func() string) {
 			return false
 		}
 		if b.ArmoredSignature != nil && b.ArmoredSignature.Body != nil {
-			_, err := openpgp.CheckDetachedSignature(e.pubs, bytes.NewReader(b.Bytes), b.ArmoredSignature.Body)
+			_, err := openpgp.CheckDetachedSignature(e.pubs, inMode(b.Bytes, mode), b.ArmoredSignature.Body)
 			return err == nil
 		}
 		return true
